@@ -69,8 +69,9 @@ class Result:
 
 
 class BatchWorld:
-    def __init__(self, seed=0, n_tokens=3, repo=None):
-        self.eng = build_engine(seed=seed, repo=repo, n_tokens=n_tokens)
+    def __init__(self, seed=0, n_tokens=3, repo=None, eng=None):
+        """eng: attach to the engine (database) of another world instead of building a new one (a second service process)"""
+        self.eng = eng if eng is not None else build_engine(seed=seed, repo=repo, n_tokens=n_tokens)
         self.loop = VLoop()
         self.rng = random.Random(seed)
         self.now = 1000
@@ -286,7 +287,7 @@ WHERE batches.user = %s AND batches.id = %s AND batch_updates.update_id = %s AND
         import batch.driver.instance_collection.pool as pm
         from hailtop.utils import Notice
 
-        rec = {"cancel_ready": set(), "cancel_creating": set(), "cancel_running": set(), "orphan": set(), "schedule": set()}
+        rec = {"cancel_ready": set(), "cancel_creating": set(), "cancel_running": set(), "orphan": set(), "schedule": set(), "failfast": set()}
         cur = {"loop": None}
 
         async def fake_mjc(app, batch_id, job_id, attempt_id, job_group_id, instance_name, new_state, *a, **k):
@@ -350,7 +351,32 @@ WHERE batches.user = %s AND batches.id = %s AND batch_updates.update_id = %s AND
                 rec["schedule"] = r
         finally:
             cm.mark_job_complete, cm.unschedule_job, pm.schedule_job, pm.random.random = saved
+        # driver/main.py cancel_fast_failing_job_groups: real query, the per-group cancellation recorded
+        import batch.driver.main as dm
+
+        async def fake_cancel(app, batch_id, job_group_id):
+            rec["failfast"].add((job_group_id,))
+
+        saved_c = dm._cancel_job_group
+        dm._cancel_job_group = fake_cancel
+        try:
+            r = self.run(dm.cancel_fast_failing_job_groups(self.app))
+            if r.kind != "ok":
+                rec["failfast"] = r
+        finally:
+            dm._cancel_job_group = saved_c
         return rec
+
+    def driver_cancel_job_group(self, batch_id, job_group_id):
+        """driver/main.py _cancel_job_group (used by cancel_fast_failing_job_groups and monitor_billing_limits)."""
+        import batch.driver.main as dm
+
+        saved = dm.set_cancel_state_changed
+        dm.set_cancel_state_changed = lambda app: None
+        try:
+            return self.run(dm._cancel_job_group(self.app, batch_id, job_group_id))
+        finally:
+            dm.set_cancel_state_changed = saved
 
     # ---- the real aiohttp handlers (decorators included) through mocked requests ------------------------------------------
     def webapp(self):
